@@ -437,10 +437,10 @@ deriving DecidableEq, Repr
 exact, RFC 8020 cut, RFC 8198 denial, RFC 9520 failure, miss). CD and ECS
 bypass the shared denial rungs. -/
 def msgLadder (q : Req) (l : Lookups) : Rung :=
-  if q.hasECS ∧ l.scopedHit then .scoped
+  if q.hasECS && l.scopedHit then .scoped
   else if l.exactHit then .exact
-  else if ¬ q.cd ∧ ¬ q.hasECS ∧ l.cut then .cut
-  else if ¬ q.cd ∧ ¬ q.hasECS ∧ l.denial then .denial
+  else if !q.cd && !q.hasECS && l.cut then .cut
+  else if !q.cd && !q.hasECS && l.denial then .denial
   else if l.failure.isSome then .failure
   else .miss
 
@@ -484,62 +484,55 @@ def commitStep (r : Rung) (tokens : Nat) : Commit → Step
   | .fallback => { out := .decline, tokens := tokens, written := false }
   | .transportErr => { out := .served r, tokens := tokens, written := true }
 
-/-- `Cache.serveHitFromWire` (flat copy) and `Cache.serveChaseHit` (composition). -/
+/-- `return false` with `t` limiter tokens already spent and nothing written. -/
+def declineWith (t : Nat) : Step := { out := .decline, tokens := t, written := false }
+/-- One early return of the Go code: `if !ok { return false }`, else continue with `k`. -/
+def gate (t : Nat) (ok : Bool) (k : Step) : Step := if ok then k else declineWith t
+/-- limiter refused: cancelled, counted as a hit, nothing written, nothing spent -/
+def droppedStep : Step := { out := .dropped, tokens := 0, written := false }
+/-- `Cache.chargeEntryLimiter`: refusal drops the query; otherwise the serve
+continues having spent one token (none when the entry has no limiter). -/
+def charge (s : ServeFacts) (k : Nat → Step) : Step :=
+  if s.limited && !s.limiterAllows then droppedStep else k (if s.limited then 1 else 0)
+
+/-- `Cache.serveChaseHit` (composition): every decline precedes the limiter charge. -/
+def serveChaseHit (s : ServeFacts) : Step :=
+  gate 0 s.chaseCollected <| gate 0 s.leaseOK <| gate 0 s.built <| gate 0 s.sizeOK <|
+  charge s fun t => commitStep .exact t s.commit
+
+/-- `Cache.serveHitFromWire` (flat copy; an alias without its terminal goes to `serveChaseHit`). -/
 def serveHitFromWire (s : ServeFacts) : Step :=
-  let decline : Step := { out := .decline, tokens := 0, written := false }
-  if s.internalWriter then decline
-  else if s.prefetchDue then decline
-  else if ¬ s.eligible then decline
-  else if ¬ s.writerReady then decline
-  else if ¬ s.chaseSafe then
-    -- serveChaseHit: every decline precedes the limiter charge
-    if ¬ s.chaseCollected then decline
-    else if ¬ s.leaseOK then decline
-    else if ¬ s.built then decline
-    else if ¬ s.sizeOK then decline
-    else if s.limited ∧ ¬ s.limiterAllows then { out := .dropped, tokens := 0, written := false }
-    else commitStep .exact (if s.limited then 1 else 0) s.commit
-  else if ¬ s.fitsChain then decline
-  else if s.limited ∧ ¬ s.limiterAllows then { out := .dropped, tokens := 0, written := false }
-  else
-    let t := if s.limited then 1 else 0
-    if ¬ s.leaseOK then { out := .decline, tokens := t, written := false }
-    else if ¬ s.built then { out := .decline, tokens := t, written := false }
-    else commitStep .exact t s.commit
+  gate 0 (!s.internalWriter) <| gate 0 (!s.prefetchDue) <| gate 0 s.eligible <| gate 0 s.writerReady <|
+  if !s.chaseSafe then serveChaseHit s
+  else gate 0 s.fitsChain <| charge s fun t =>
+    -- past the charge only commit-time backstops remain
+    gate t s.leaseOK <| gate t s.built <| commitStep .exact t s.commit
 
 /-- `Cache.serveCutHitFromWire`. -/
 def serveCutHitFromWire (s : ServeFacts) : Step :=
-  let decline : Step := { out := .decline, tokens := 0, written := false }
-  if s.internalWriter then decline
-  else if ¬ s.writerReady then decline
-  else if ¬ s.fitsChain then decline       -- no template for this DO
-  else if ¬ s.leaseOK then decline
-  else if ¬ s.built then decline
-  else if ¬ s.sizeOK then decline
-  else commitStep .cut 0 s.commit
+  gate 0 (!s.internalWriter) <| gate 0 s.writerReady <| gate 0 s.fitsChain <| gate 0 s.leaseOK <|
+  gate 0 s.built <| gate 0 s.sizeOK <| commitStep .cut 0 s.commit
 
 /-- `Cache.serveFailureFromWire`. -/
 def serveFailureFromWire (s : ServeFacts) : Step :=
-  let decline : Step := { out := .decline, tokens := 0, written := false }
-  if s.internalWriter then decline
-  else if ¬ s.writerReady then decline
-  else if ¬ s.leaseOK then decline
-  else if ¬ s.built then decline
-  else commitStep .failure 0 s.commit
+  gate 0 (!s.internalWriter) <| gate 0 s.writerReady <| gate 0 s.leaseOK <| gate 0 s.built <|
+  commitStep .failure 0 s.commit
 
-/-- `Cache.serveWire` + `Cache.serveCompositeFromWire`. -/
-def wireLadder (q : Req) (l : Lookups) (s : ServeFacts) : Step :=
-  let decline : Step := { out := .decline, tokens := 0, written := false }
-  if ¬ q.rd ∨ q.hasECS then decline
-  else if ¬ q.typeKnown then decline
-  else if ¬ q.classKnown then decline
-  else if l.exactHit then serveHitFromWire s
-  else if ¬ q.cd ∧ l.cutWire then serveCutHitFromWire s
+/-- the failure rung's gate in `serveCompositeFromWire` -/
+def failureServable (cd : Bool) (kind : FailKind) (l : Lookups) : Bool :=
+  cd || ((kind == .question || l.denialImpossible) && l.witnessHolds)
+
+/-- `Cache.serveCompositeFromWire`: cut (unless CD), then failure behind its witness gate. -/
+def serveCompositeFromWire (q : Req) (l : Lookups) (s : ServeFacts) : Step :=
+  if !q.cd && l.cutWire then serveCutHitFromWire s
   else match l.failureWire with
-    | some kind =>
-      if q.cd ∨ ((kind = .question ∨ l.denialImpossible) ∧ l.witnessHolds) then serveFailureFromWire s
-      else decline
-    | none => decline
+    | some kind => gate 0 (failureServable q.cd kind l) (serveFailureFromWire s)
+    | none => declineWith 0
+
+/-- `Cache.serveWire`. -/
+def wireLadder (q : Req) (l : Lookups) (s : ServeFacts) : Step :=
+  gate 0 (q.rd && !q.hasECS) <| gate 0 q.typeKnown <| gate 0 q.classKnown <|
+  if l.exactHit then serveHitFromWire s else serveCompositeFromWire q l s
 
 /-- Entry-limiter tokens the Msg body charges after the wire pass of the SAME
 call declined (`handleCacheHit`: `limiter != spent`). -/
